@@ -4,8 +4,8 @@
    (predicate, argument order and slack taken from the source); its geometric meaning is C09
    (rectangles: forall z in R_i, z' in R_j, z'+slack dominates z) and C11 for check_dominates. *)
 From Coq Require Import List Bool Arith.
-From VOPy Require Import Spec Invariants AlgoRefine AlgoProps Tables.
-From VOPyGen Require Import Gen_algos.
+From VOPy Require Import Spec Invariants AlgoRefine AlgoProps Tables AuerRefine.
+From VOPyGen Require Import Gen_algos Gen_auer.
 Import ListNotations.
 
 Theorem C02_paveba : forall E st i, wf_state st ->
@@ -58,10 +58,19 @@ Theorem C02_pessimistic_witnesses : forall E S P U i,
 Proof. exact pessimistic_set_iff. Qed.
 Print Assumptions C02_pessimistic_witnesses.
 
-(* Auer (hand-written reference transition, tied by correspondence): eliminated iff some other
+(* Auer (reference transition; C02_auer_regenerated ties it to the source): eliminated iff some other
    candidate's centre exceeds it by more than the two designs' summed widths *)
 Theorem C02_auer : forall domB covB pessB st i, wf_state st ->
   (In i (sS st) /\ ~ In i (sS (au_round domB covB pessB st)) /\ ~ In i (sP (au_round domB covB pessB st))) <->
   (In i (sS st) /\ exists j, In j (sS st) /\ j <> i /\ domB i j = true).
 Proof. exact au_eliminated_iff. Qed.
 Print Assumptions C02_auer.
+
+(* Auer, over the transitions REGENERATED from vopy/algorithms/auer.py: eliminated iff some other candidate's
+   centre exceeds it, in every objective's gap m(i,j) = max(0, min(c_j - c_i)), by more than the summed widths *)
+Theorem C02_auer_regenerated : forall A st i, wf_state st ->
+  (In i (sS st) /\ ~ In i (sS (auer_compose A st)) /\ ~ In i (sP (auer_compose A st))) <->
+  (In i (sS st) /\ exists j, In j (sS st) /\ j <> i /\
+     au_dom (a_center A i) (a_center A j) (a_beta A i) (a_beta A j) = true).
+Proof. intros A st i Hw. rewrite auer_round_refines. exact (au_eliminated_iff (a_dom A) (a_cov A) (a_hold A) st i Hw). Qed.
+Print Assumptions C02_auer_regenerated.
